@@ -24,6 +24,14 @@ func main() {
 			nSeq = 0
 		}
 		maxSteps := 36
+		// the op-code accessors (gas.go): one case, empty when they answer the key they were built with
+		api := vh.Case{Coq: "CSeq ObsStore (mkCfg 1%Z None [] []) [] []", Class: "api", Key: "api",
+			Desc: map[string]interface{}{"mode": "GetK accessors of the seven op-codes", "ok": true}}
+		if !opcodeAccessorsOK() {
+			api.Coq = "CSeq ObsStore (mkCfg 1%Z None [] []) [] [mkStep (OGet 0%Z) [] false (mkObs [] RHang None [] [])]"
+			api.Desc = map[string]interface{}{"mode": "GetK accessors of the seven op-codes", "ok": false}
+		}
+		e.Emit(api)
 		const maxTimeouts = 2 // a hang is reported by the cases that saw it; do not spend the whole budget waiting
 		for i := 0; i < nSeq && timeouts < maxTimeouts; i++ {
 			s := genSeq(e.Rnd, focus, maxSteps)
